@@ -13,7 +13,9 @@ if not ok:
     print(json.dumps({k: out.get(k) for k in ('demo_clean_rc', 'demo_mut_rc', 'baseline', 'apply_err', 'demo_clean_tail', 'demo_mut_tail')}, indent=1))
     sys.exit(1)
 os.makedirs(dst, exist_ok=True)
-for f in ('patch.diff', 'demo.py', 'notes.md'):
+import glob as _glob
+extra = [os.path.basename(x) for x in _glob.glob(os.path.join(mdir, '*.py')) if os.path.basename(x) != 'demo.py']
+for f in ('patch.diff', 'demo.py', 'notes.md') + tuple(extra):   # helper modules a demo imports travel with it
     if os.path.exists(os.path.join(mdir, f)) and os.path.realpath(mdir) != os.path.realpath(dst):
         shutil.copy(os.path.join(mdir, f), os.path.join(dst, f))
 notes = open(os.path.join(mdir, 'notes.md')).read() if os.path.exists(os.path.join(mdir, 'notes.md')) else ''
